@@ -304,7 +304,9 @@ class ExcelInPython:
             case 1:
                 return self._match(lookup_value, lookup_array, match_mode)
             case -1:
-                return self._match(lookup_value, lookup_array[::-1], match_mode)
+                # поиск с конца: позиция считается от начала массива
+                position = self._match(lookup_value, lookup_array[::-1], match_mode)
+                return len(lookup_array) - position + 1 if isinstance(position, int) else position
             case 2:
                 index = self._binary_search(lookup_array, lookup_value)[output_value]
                 return index + 1 if index != -1 else '#N/A'
